@@ -99,6 +99,8 @@ fn build_validation() -> Validation {
     let mut v = Validation::new(Algorithm::EdDSA);
     v.set_required_spec_claims(&AnyClaims::required_claims());
     v.set_audience(&["snap"]);
+    // A token that carries a not-before time must not be accepted before it (minus leeway).
+    v.validate_nbf = true;
     v
 }
 
